@@ -54,6 +54,7 @@ class PartialEval:
     def __init__(self, ctx: Ctx, f: Func, member: str) -> None:
         self.ctx, self.f, self.member = ctx, f, member
         self.active: set = set()
+        self.env: dict = {}  # parameters of the package helpers being looked into -> argument values
 
     def ev(self, t: Term, depth: int = 0) -> Term:
         X = self.ctx.X
@@ -106,6 +107,19 @@ class PartialEval:
                     rt = X.return_term(g)
                     mapping = {("param", g.qualname, p): a for p, a in zip(g.positional, args)}
                     return E(subst(rt, mapping))
+            if fn[0] == "global" and fn[1] in self.ctx.repo.funcs and len(self.env) < 40:
+                # a module-level helper of the package (its loops cannot be inlined as a value): evaluate its returned
+                # value with the parameters bound to the arguments
+                g = self.ctx.repo.funcs[fn[1]]
+                if g.cls is None and not isinstance(g.node, ast.Lambda) and len(args) <= len(g.positional):
+                    new_env = {("param", g.qualname, p): a for p, a in zip(g.positional, args)}
+                    new_env.update({("param", g.qualname, n): v for n, v in kws})
+                    old_env = self.env
+                    self.env = {**old_env, **new_env}
+                    try:
+                        return E(X.return_term(g))
+                    finally:
+                        self.env = old_env
             return ("call", E(fn) if fn[0] not in ("global", "builtin", "func") else fn, tuple(args), kws)
         if k == "binop" and t[1] == "&":
             l, r = E(t[2]), E(t[3])
@@ -145,6 +159,8 @@ class PartialEval:
                 return E(X.deref(t))
             finally:
                 self.active.discard(key)
+        if k == "param" and t in self.env:
+            return self.env[t]
         if k in ("const", "param", "global", "builtin", "func", "unknown"):
             return t
         return tuple(E(x) if isinstance(x, tuple) and x and isinstance(x[0], str) else (tuple(E(y) if isinstance(y, tuple) and y and isinstance(y[0], str) else y for y in x) if isinstance(x, tuple) else x) for x in t)
@@ -198,7 +214,10 @@ def c10_2(ctx: Ctx) -> RuleResult:
     steps = []
     from ..util import framed_closure
 
-    for s_ in framed_closure(ctx, f, rt):
+    from ..util import subst_params
+
+    frames = {}
+    for s_, mp_ in framed_closure(ctx, f, rt, with_frame=True):
         if s_[0] == "call" and s_[1][0] == "func":
             # a nested helper that was not inlined (e.g. recursive): look at its own return value
             continue
@@ -206,6 +225,7 @@ def c10_2(ctx: Ctx) -> RuleResult:
         if n_ in seen or n_[0] != "call" or n_[1] != G("numpy.where") or len(n_[2]) != 3:
             continue
         seen.add(n_)
+        frames[n_] = mp_
         m = match(n_, call("numpy.where", V("c"), add(neg(V("v")), mul(C(2), V("b"))), V("v")))
         if m is None:
             # a where() that is not a mirroring step (e.g. the final selection by type) is not an instance
@@ -243,7 +263,7 @@ def c10_2(ctx: Ctx) -> RuleResult:
         ok = m["b"] == which[1]
         res.add(f, f.node, "the violated-bound test and the bound used for mirroring are the same bound", ok,
                 "" if ok else f"condition `{show(viol[0], 50)}` is mirrored at `{show(m['b'], 30)}`: values are reflected at the wrong bound", construct=f"{f.name}: mirror at {which[0]} bound")
-        mk = [x for c in conj for x in X.closure(c) if x[0] == "cmp" and x[1] == "==" and ((x[3][0] == "global" and x[3][1].startswith(BT + ".")) or (x[2][0] == "global" and x[2][1].startswith(BT + ".")))]
+        mk = [x for c in conj for x in (subst_params(y, frames.get(n_, {})) for y in X.closure(c)) if x[0] == "cmp" and x[1] == "==" and ((x[3][0] == "global" and x[3][1].startswith(BT + ".")) or (x[2][0] == "global" and x[2][1].startswith(BT + ".")))]
         ok = bool(mk) and all((x[3] == G(f"{BT}.MIRROR_BOTH") and x[2] == ty) or (x[2] == G(f"{BT}.MIRROR_BOTH") and x[3] == ty) for x in mk)
         res.add(f, f.node, "mirroring is restricted to elements of type MIRROR_BOTH", ok, "" if ok else "mirror mask is not the MIRROR_BOTH type test", construct=f"{f.name}: mask of mirror at {which[0]} bound")
     if n < 2:
